@@ -12,7 +12,7 @@ import (
 
 func init() {
 	Register("C06", "Decides structural necessary conditions of the recursion check and of Example() termination: (pair) visit/leave are paired by defer on the success edge; (skip) optional/nullable edges are skipped before anything else, arrays/literals/mixed nodes end the walk, objects are AND, `@a | @b` is OR; (table) the recursive walk must keep using the type table the lookup used - violated today, known finding; (example) the example builder's type expansion is bounded by a counter that is incremented and decremented in pairs; (sep) the example's separators cannot dangle. Does NOT decide both directions of the iff over all reference graphs.",
-		c06pair, c06skip, c06table, c06example, sepRule("C06.sep", []string{"notations/jschema"}, 2))
+		c06pair, c06skip, c06table, c06example, c06alt, sepRule("C06.sep", []string{"notations/jschema"}, 2))
 }
 
 const recPkg = "(*notations/jschema/checker.recursionChecker)."
@@ -316,4 +316,40 @@ func c06example(c *core.Ctx) {
 	}
 	ok := test.IsValid() && inc.IsValid() && dec.IsValid() && build.IsValid() && test < inc && inc < build && deferAfterInc
 	c.Check(ok, R, "buildExampleForMixedValueNode:counter", c.P.Pos(d.Decl.Pos()), "bounded type expansion: test(>1) < increment < deferred decrement < recursive Build", "the expansion counter is no longer tested/incremented/decremented in this order: Example() of a schema with an optional self-reference does not terminate, or a type used twice is dropped the second time")
+}
+
+// c06alt: at the recursion limit of a choice the other alternatives are tried.
+func c06alt(c *core.Ctx) {
+	const R = "C06.alt"
+	c.Rule(R, "exampleBuilder.buildExampleForMixedValueNode: the branch taken when the first alternative has reached the expansion limit (`processedTypes[...] > 1`) looks through the remaining alternatives (a loop over the type list) before it returns the empty result. A choice that is satisfiable through its second alternative (`@a | @b` with @a leading back to the root) otherwise yields an empty example with a nil error at the root, or drops a REQUIRED property inside an object")
+	c.Floor(R, 1)
+	d := c.P.FindDecl("(*notations/jschema.exampleBuilder).buildExampleForMixedValueNode")
+	if d == nil {
+		c.Unresolved(R, "(*notations/jschema.exampleBuilder).buildExampleForMixedValueNode")
+		return
+	}
+	ok := false
+	ast.Inspect(d.Decl.Body, func(n ast.Node) bool {
+		ifs, isIf := n.(*ast.IfStmt)
+		if !isIf {
+			return true
+		}
+		s := core.ExprStr(ifs.Cond)
+		if ifs.Init != nil {
+			if as, isA := ifs.Init.(*ast.AssignStmt); isA && len(as.Rhs) == 1 {
+				s = core.ExprStr(as.Rhs[0]) + ";" + s
+			}
+		}
+		if !strings.Contains(s, "processedTypes[") {
+			return true
+		}
+		ast.Inspect(ifs.Body, func(m ast.Node) bool {
+			if rs, isR := m.(*ast.RangeStmt); isR && strings.HasPrefix(core.ExprStr(rs.X), "tt") {
+				ok = true
+			}
+			return true
+		})
+		return true
+	})
+	c.Check(ok, R, "buildExampleForMixedValueNode:alternatives", c.P.Pos(d.Decl.Pos()), "the recursion-limit branch tries the other alternatives of the choice", "only the first alternative is ever used: at the limit the example of the choice is empty although another alternative is finite")
 }
